@@ -171,7 +171,11 @@ func init() {
 			for k := 0; k < 20000; k++ {
 				docs := deltaMatrixDocs(3, 4, r.intn(pow3(12)))
 				id++
-				runAndRead(ho, ro, id, sameSchemaCase(compressingKinds[r.intn(5)], "", 1+r.intn(5), docs), false)
+				kind, n := compressingKinds[r.intn(5)], 1+r.intn(5)
+				if kind == "base" && n < 4 {
+					n = 4 // the base collector holds n+1 samples: 5 documents need n >= 4
+				}
+				runAndRead(ho, ro, id, sameSchemaCase(kind, "", n, docs), false)
 			}
 		}
 		if err := ho.close(); err != nil {
